@@ -155,6 +155,8 @@ class ScriptedMixin:
                 self.call_soon(self._sc_callback(a[1]))
             elif k == 'observe':
                 self._sc_trace.append(['observe', self.paused, self.status])
+            elif k == 'status':
+                self.set_status(a[1])
             else:
                 raise ValueError(a)
         r = script['ret']
